@@ -47,6 +47,9 @@ def run_case(run, drv, case, exp, want_full=True):
             return None
         exp[id(case)] = (fmt(stream), fmt(ref))
         rc_model(drv, case, raw, files, state)
+        from harness.props.c05 import full_model
+        exp[("full", id(case))] = exp[id(case)]
+        full_model(drv, case, raw, files, state, content == parent, os.path.basename(content))
         return result, stream, ref
 
 
@@ -77,12 +80,31 @@ def run(tier, seed, replay=None):
     from harness.common import corpus_cases
     cases = [replay["case"]] if replay else corpus_cases("C16") + \
         [rc.make_case(run.rng, tier, damage=(i % 5 != 0)) for i in range(200 if tier == "quick" else 1500)]
+    import contextlib
     for case in cases:
-        res = run_case(run, drv, case, exp)
+        with (rc.scaled(case["scaled"]) if case.get("scaled") else contextlib.nullcontext()):
+            res = run_case(run, drv, case, exp)
+            if res is not None and case.get("scaled"):
+                judge(run, case, res)
+                settle(run, drv, exp)
+                continue
         if res is None:
             continue
         judge(run, case, res)
         run.case(key(case), nontrivial(case), sample=case,
                  classes=[f"v{case['version']}", case["source"], f"damages={len(case['damage'])}"])
     settle(run, drv, exp)
+    if tier == "thorough" and not replay:
+        with rc.scaled(64):
+            exp2 = {}
+            for i in range(3000):
+                case = rc.make_case(run.rng, "quick", damage=(i % 4 != 0))
+                case["scaled"] = 64
+                res = run_case(run, drv, case, exp2)
+                if res is None:
+                    continue
+                judge(run, case, res)
+                run.case(["scaled"] + key(case), nontrivial(case), sample=case,
+                         classes=["scaled", f"v{case['version']}"])
+            settle(run, drv, exp2)
     return run.finish()
